@@ -1,7 +1,10 @@
 //! C14: the real bigWig writer driven through a recording / fault-injecting `Write + Seek` sink.
 //!
-//! case   = (kind opts sizes input queries cfg)      kind/opts/sizes/input/queries as in Model/EntryBBI.v
-//!          cfg = (threads inmemory)
+//! case   = (kind opts sizes input queries cfg [autosql])
+//!          kind 0/1: bigWig single/two pass, opts/sizes/input/queries as in Model/EntryBBI.v
+//!          kind 10/11: bigBed single/two pass, input/queries as in Model/EntryBed.v, autosql () | ((bytes));
+//!          bigBed runs are judged by the oracle only (no trace model)
+//!          cfg = (threads inmemory nofault)
 //! output = (status trace runs prefixes torn faults)
 //!   status   (0) accepted | (1 code) refused | (2) panic
 //!   trace    every operation that reached the sink, in order:
@@ -16,8 +19,9 @@
 //!   faults   one entry per injected failure: (kind k outcome) kind 0 seek / 1 write / 2 flush,
 //!            outcome 0 = write returned Ok, 1 = Err or panic, 3 = no return within the watchdog time
 use bigtools::beddata::BedParserStreamingIterator;
-use bigtools::{BigWigRead, BigWigWrite, Value};
+use bigtools::{BedEntry, BigBedRead, BigBedWrite, BigWigRead, BigWigWrite, Value};
 use bt_harness::bbi::{bw_answer, bw_items, classify_err, get_opts, get_sizes, runtime, write_options, Opts};
+use bt_harness::bed::{bb_answer, bed_items, classify_bed_err};
 use bt_harness::{a, sl, S};
 use std::collections::HashMap;
 use std::io::{self, Cursor, Seek, SeekFrom, Write};
@@ -111,6 +115,36 @@ fn run_writer(kind: u32, o: &Opts, sizes: &HashMap<String, u32>, items: &[(Strin
     r.map_err(|e| classify_err(&e))
 }
 
+fn run_writer_bed(kind: u32, o: &Opts, sizes: &HashMap<String, u32>, autosql: &Option<String>, items: &[(String, BedEntry)], threads: usize, inmemory: bool, sink: RecSink) -> Result<(), i128> {
+    let mut w = BigBedWrite::new(sink, sizes.clone());
+    w.options = write_options(o);
+    w.options.inmemory = inmemory;
+    w.autosql = autosql.clone();
+    let allow = !o.sort_all;
+    let rt = runtime(threads);
+    let r = if kind == 10 {
+        let src = BedParserStreamingIterator::wrap_infallible_iter(items.to_vec().into_iter(), allow);
+        w.write(src, rt)
+    } else {
+        let items = items.to_vec();
+        w.write_multipass(|| Ok(BedParserStreamingIterator::wrap_infallible_iter(items.clone().into_iter(), allow)), rt)
+    };
+    r.map_err(|e| classify_bed_err(&e))
+}
+
+/// the input of one case, for either file type
+#[derive(Clone)]
+enum Input {
+    Wig(Vec<(String, Value)>),
+    Bed(Vec<(String, BedEntry)>, Option<String>),
+}
+fn run_any(kind: u32, o: &Opts, sizes: &HashMap<String, u32>, input: &Input, threads: usize, inmemory: bool, sink: RecSink) -> Result<(), i128> {
+    match input {
+        Input::Wig(items) => run_writer(kind, o, sizes, items, threads, inmemory, sink),
+        Input::Bed(items, asql) => run_writer_bed(kind, o, sizes, asql, items, threads, inmemory, sink),
+    }
+}
+
 fn op_s(op: &Op) -> S {
     match op {
         Op::Seek(p) => sl![a(0), a(*p)],
@@ -148,8 +182,17 @@ fn apply(buf: &mut Vec<u8>, pos: u64, b: &[u8]) {
 
 /// None = rejected by the reader; Some(answers) otherwise.  The total summary (query kind 3) is what
 /// may still be missing after the header operation: it is not compared.
-fn serve(bytes: &[u8], queries: &[S]) -> Option<Vec<S>> {
+fn serve(bed: bool, bytes: &[u8], queries: &[S]) -> Option<Vec<S>> {
     let r = std::panic::catch_unwind(|| {
+        if bed {
+            // the total summary (3) and the item count (6) live in the slots written after the header
+            // operation; a query history (7) needs a second reader
+            let mut r = match BigBedRead::open(Cursor::new(bytes.to_vec())) {
+                Ok(r) => r,
+                Err(_) => return None,
+            };
+            return Some(queries.iter().filter(|q| ![3, 6, 7].contains(&q.at(0).u32())).map(|q| bb_answer(&mut r, q)).collect::<Vec<S>>());
+        }
         let mut r = match BigWigRead::open(Cursor::new(bytes.to_vec())) {
             Ok(r) => r,
             Err(_) => return None,
@@ -166,7 +209,12 @@ fn run(c: &S) -> S {
     let kind = c.at(0).u32();
     let o = get_opts(c.at(1));
     let sizes = get_sizes(c.at(2));
-    let items = bw_items(c.at(3));
+    let bed = kind >= 10;
+    let input = if bed {
+        Input::Bed(bed_items(c.at(3)), c.at(6).l().first().map(|b| b.string()))
+    } else {
+        Input::Wig(bw_items(c.at(3)))
+    };
     let queries: Vec<S> = c.at(4).l().to_vec();
     let threads = c.at(5).at(0).usize();
     let inmemory = c.at(5).at(1).bool();
@@ -174,7 +222,7 @@ fn run(c: &S) -> S {
 
     // 1. the recorded trace of the undisturbed run
     let sink = RecSink::new(None);
-    let res = std::panic::catch_unwind(std::panic::AssertUnwindSafe(|| run_writer(kind, &o, &sizes, &items, threads, inmemory, sink.clone())));
+    let res = std::panic::catch_unwind(std::panic::AssertUnwindSafe(|| run_any(kind, &o, &sizes, &input, threads, inmemory, sink.clone())));
     let status = match &res {
         Ok(Ok(())) => sl![a(0)],
         Ok(Err(code)) => sl![a(1), a(*code)],
@@ -188,14 +236,14 @@ fn run(c: &S) -> S {
     let runs = S::L(coalesce(&log).iter().map(|(p, b)| sl![a(*p), S::from_bytes(b)]).collect());
 
     // 2. every crash point
-    let final_answers = serve(&final_bytes, &queries);
+    let final_answers = serve(bed, &final_bytes, &queries);
     // the header operation: the first write at position 0 whose first four bytes are not all zero
     let hdr_ix = log.iter().position(|op| matches!(op, Op::Write(0, b) if b.len() >= 4 && b[..4] != [0, 0, 0, 0]));
     let mut prefixes = vec![];
     let mut torn = (0usize, 0usize);
     let mut buf: Vec<u8> = vec![];
     let verdict = |b: &[u8]| -> i128 {
-        match serve(b, &queries) {
+        match serve(bed, b, &queries) {
             None => 0,
             Some(ans) => {
                 if Some(&ans) == final_answers.as_ref() {
@@ -247,9 +295,9 @@ fn run(c: &S) -> S {
             for k in 0..counts[kindk] {
                 let fs = RecSink::new(Some((kindk, k)));
                 let (tx, rx) = std::sync::mpsc::channel();
-                let (o2, sizes2, items2, fs2) = (get_opts(c.at(1)), sizes.clone(), items.clone(), fs.clone());
+                let (o2, sizes2, input2, fs2) = (get_opts(c.at(1)), sizes.clone(), input.clone(), fs.clone());
                 std::thread::spawn(move || {
-                    let r = std::panic::catch_unwind(std::panic::AssertUnwindSafe(|| run_writer(kind, &o2, &sizes2, &items2, threads, inmemory, fs2)));
+                    let r = std::panic::catch_unwind(std::panic::AssertUnwindSafe(|| run_any(kind, &o2, &sizes2, &input2, threads, inmemory, fs2)));
                     let _ = tx.send(match r {
                         Ok(Ok(())) => 0,
                         Ok(Err(_)) => 1,
